@@ -165,19 +165,13 @@ Definition chk_r (c : rcase) : nat :=
   let m := mode_of (r_mode c) in
   let src := img_of m (r_sh c) (r_sw c) (r_src c) in
   let buf := make_maskable_buffer m (r_bh c) (r_bw c) (ipx (img_of (maskable m) (r_bh c) (r_bw c) (r_buf c))) in
+  (* update: the integer rule the code carries since fix a186b8b (upd_px_fixed), signed data included *)
   let res := if r_fill c then fill_into src buf (r_iy c) (r_ix c) (r_by c) (r_bx c)
-             else update_into src buf (r_iy c) (r_ix c) (r_by c) (r_bx c) in
-  (* integer modes: the repaired rule of fixes/C02-1.patch is accepted as well; it
-     differs from np.maximum only on negative data, outside the C15 statement *)
-  let res2 := if r_fill c then None else update_into_fixed src buf (r_iy c) (r_ix c) (r_by c) (r_bx c) in
+             else update_into_fixed src buf (r_iy c) (r_ix c) (r_by c) (r_bx c) in
   let obs := img_of (maskable m) (r_bh c) (r_bw c) (r_obs c) in
   match res with
   | None => 1%nat
-  | Some out => if img_eqb out obs then 0%nat
-                else match res2 with
-                     | Some o2 => if img_eqb o2 obs then 0%nat else 2%nat
-                     | None => 2%nat
-                     end
+  | Some out => if img_eqb out obs then 0%nat else 2%nat
   end.
 
 (* ---- slices ---- *)
